@@ -173,6 +173,7 @@ def prop_C02(run):
     rules_idx.sk_provider(run)
     rules_idx.sk_match_locals(run)
     rules_idx.sk_instruction_flag(run)
+    rules_idx.sk_flag_fresh(run)                # static flags are computed for this match at this place, never remembered
     import rules_mpt as _rm
     _rm.smallest_by_resolved_size(run)          # `smallest` is decided on the encodings just resolved
     run.rules_run += ["FIX5 every candidate re-evaluated in every pass", "SK static-known analysis conservative (a frozen item must really be constant)", "FIX1 confirming no-guess pass dominates every delivered result", "FIX2 each stateful resolver compares with the previous pass and returns Unresolved on change",
@@ -207,6 +208,7 @@ def prop_C08(run):
     rules_idx.sk_provider(run)
     rules_idx.sk_match_locals(run)
     rules_idx.sk_instruction_flag(run)
+    rules_idx.sk_flag_fresh(run)
     rules_idx.index_insert_unconditional(run)   # every rule is listed in the prefix index
     rules_idx.matcher_candidate_order(run)      # both matchers hand over candidates in declaration order (F75)
     run.rules_run += ["GATE who-touches audit of the two optimisation switches", "FIX3", "TAB-idx writer/reader/matcher agreement of the rule-prefix index", "SK conservativeness of is_value_statically_known per Expr variant"]
